@@ -22,6 +22,15 @@ def body_deductive(rep):
                     '(side by side in lean/THEOREMS.md)']
 
 
+def parse_deductive(rep):
+    """visitor: grammar alternative of `predicateexpression` -> AST node (C06, C05): ',' conjunction, '->' if-then,
+    ';' disjunction, '\\+' negation, parentheses transparent"""
+    from ..pyvc.theory_visitor import ParseTheory
+    fw.deductive(rep, ['yp_prolog_visitor.YPPrologVisitor.visitPredicateexpression'], ['visitor'], ['control.smt2'], theory=ParseTheory)
+    rep.assumptions.append('visitSimplepredicate builds spbody(node) (assumed contract; bounded-checked by the reader differential); '
+                           'the parse tree is a derivation of prolog.g4 with op in {",", "->", ";", "\\+"} (A-EXT-ANTLR)')
+
+
 CLAUSE_TARGETS = ['yp_generator.YPPrologCompiler.' + f for f in (
     'find_clause_head_variable_arguments', 'compile_clause_head_variable_arguments', 'compile_arg_list_unification',
     'compile_unification', 'compile_expression', 'compile_list', 'compile_variable_declaration', 'get_argument_variable',
